@@ -8,7 +8,7 @@ Local Open Scope N_scope.
 
 Definition c10_spec_width (n : nat) : N := c10_bits * N.of_nat n.
 
-Inductive c10_binop := OpAdd | OpSub | OpMul | OpDiv | OpMod | OpAnd | OpOr | OpXor.
+
 (* result as a number, None = "a zero divisor is reported" *)
 Definition c10_spec_binop (n : nat) (o : c10_binop) (a b : N) : option N :=
   let M := 2 ^ c10_spec_width n in
@@ -41,3 +41,10 @@ Definition c10_hexdigit_val (c : ascii) : N :=
   | "8" => 8 | "9" => 9 | "a" => 10 | "b" => 11 | "c" => 12 | "d" => 13 | "e" => 14 | "f" => 15 | _ => 0
   end%char.
 Definition c10_hexval (l : list ascii) : N := fold_left (fun v c => v * 16 + c10_hexdigit_val c) l 0.
+
+(* todouble, exactly: the value truncated (rounded toward zero, the round_style the numeric_limits
+   specialisation announces) to its top 53/16 = 3 base-2^16 digits: all digits below position
+   sigdigits - 3 are dropped.  Result as (mantissa, binary exponent). *)
+Definition c10_spec_sigdigits (v : N) : N := if v =? 0 then 0 else N.log2 v / c10_bits + 1.
+Definition c10_spec_todouble (v : N) : N * N :=
+  let e := c10_bits * (c10_spec_sigdigits v - c10_param_double_digits / c10_bits) in (v / 2 ^ e, e).
